@@ -10,15 +10,15 @@ import (
 var corpus = []string{
 	// default-parameter wallet (slow kdf): create, reopen, change password
 	"W 0 new:a:1:1;pw:n1:1:2;rl",
-	// low-cost wallet: NewAccount encrypts with the DEFAULT parameters -> cannot be opened (finding)
+	// low-cost wallet: NewAccount must encrypt with the wallet's parameters (was a finding)
 	"W 1 new:a:1:1",
 	// imports, duplicate label renamed, delete with wrong / right password, default moves
 	"W 1 imp:0:a:0:1:1:1;imp:1:a:0:1:2:1;imp:2:a:0:1:3:1;del:k1:9;del:k1:2;def:k2;del:k0:1;del:k2:3",
-	// the same key twice, then delete: list and index disagree (finding)
+	// the same key twice: refused (was a finding: list and index disagreed after the delete)
 	"W 1 imp:0:a:0:1:1:1;imp:0:b:0:1:2:1;del:k0:2",
-	// SetLabel(a, \"\") indexes the empty label: a second one is refused until the wallet is reopened (finding)
+	// SetLabel(a, \"\") twice (was a finding: the empty label was indexed)
 	"W 1 imp:0:a:0:1:1:1;imp:1:b:0:1:1:1;lab:k0:-;lab:k1:-",
-	// ChangePassword to the empty password bricks the account (finding)
+	// ChangePassword to the empty password is refused (was a finding)
 	"W 1 imp:0:a:0:1:1:1;pw:k0:1:0",
 	// password chain, wrong old, same, scheme changes valid / invalid, foreign-parameter import
 	"W 1 imp:0:a:0:1:1:1;pw:k0:2:3;pw:k0:1:1;pw:k0:1:2;pw:k0:2:3;sch:k0:5;sch:k0:9;sch:k0:11;imp:1:b:0:1:1:2;imp:2:c:3:1:1:1;imp:3:d:0:9:1:1;rl;pw:k0:3:1",
@@ -72,7 +72,7 @@ func gen(r *hx.Rand, tier string, i int) string {
 		x := r.Intn(100)
 		switch {
 		case x < 30 || len(accts) == 0:
-			if (prm != 0 && r.Intn(1000) < 5 && news < 1) || (prm == 0 && news < 1) { // NewAccount: always one default-cost scrypt
+			if (prm != 0 && r.Chance(25) && news < 3) || (prm == 0 && news < 1) { // NewAccount (costs one scrypt at the wallet's parameters: slow only in a `W 0` wallet)
 				news++
 				pw := 1 + r.Intn(3)
 				if r.Chance(5) {
